@@ -117,6 +117,11 @@ class Check:
         os.makedirs(EVD, exist_ok=True)
         if self.broken:
             ev["coverage"]["analysis_broken"] = self.broken
+        rd0 = os.path.join(EVD, "replay")
+        if os.path.isdir(rd0):
+            for fn in os.listdir(rd0):
+                if fn.startswith(self.pid + "-"):
+                    os.remove(os.path.join(rd0, fn))
         with open(os.path.join(EVD, self.pid + ".json"), "w") as f:
             json.dump(ev, f, indent=1)
         print("%s [%s]: %d sites: %d proved, %d refuted (%d known), %d unknown; %d units, %d functions; %.1fs" % (
